@@ -13,10 +13,22 @@ For property <ID> (module tools/props/<id>.py):
   5. verdict + evidence/<ID>.json.
 Exit 0 = property held on everything explored; exit 1 + "VIOLATION property=<ID> replay=<path>".
 """
-import argparse, importlib, json, os, random, sys, time, traceback
+import argparse, importlib, json, os, random, shutil, sys, time, traceback
 
 sys.path.insert(0, os.path.dirname(os.path.abspath(__file__)))
 from lib import common as C
+from lib import fingerprints as FP
+
+
+def _escalated(q, t):
+    """sizes of an escalated quick run: four times the quick size, at most the thorough one (component-wise)"""
+    if isinstance(q, bool) or isinstance(t, bool):
+        return q
+    if isinstance(q, int) and isinstance(t, int):
+        return min(t, 4 * q) if t >= q else q
+    if isinstance(q, (tuple, list)) and isinstance(t, (tuple, list)) and len(q) == len(t):
+        return type(q)(_escalated(a, b) for a, b in zip(q, t))
+    return q
 
 
 class Ctx:
@@ -26,8 +38,11 @@ class Ctx:
         self.quick = tier == 'quick'
         self.proof_ok = True
         self.notes = []
+        self.escalate = False        # T3: a function of this property's slice differs from the recorded text
 
     def n(self, quick, thorough):
+        if self.quick and self.escalate:
+            return _escalated(quick, thorough)
         return quick if self.quick else thorough
 
 
@@ -83,6 +98,24 @@ def main():
         broken.append({'kind': 'axioms', 'detail': bad_axioms})
     obligations = len(props['theorems']) + len(getattr(mod, 'GEN_OBLIGATIONS', []))
     discharged = obligations if ctx.proof_ok else 0
+    # 3b. T3: fingerprints of the hand-modelled code (tools/lib/fingerprints.py)
+    record_reach = os.environ.get('VERIF_RECORD_REACH') == '1'
+    fp = {'changed': [], 'gone': [], 'recorded': False}
+    trace_dir = None
+    try:
+        if record_reach:
+            env, trace_dir = FP.arm([], C.REPO, mode='reach')
+            os.environ.update(env)
+        else:
+            fp = FP.compare(pid, C.REPO)
+            if fp['changed'] or fp['gone']:
+                ctx.escalate = True
+                if fp['changed']:
+                    env, trace_dir = FP.arm(fp['changed'], C.REPO)
+                    os.environ.update(env)
+    except Exception as e:
+        traceback.print_exc()
+        broken.append({'kind': 'translator', 'detail': f'fingerprints: {type(e).__name__}: {e}'})
     # 4. correspondence + oracle
     try:
         res = mod.correspond(ctx)
@@ -91,6 +124,32 @@ def main():
         res = dict(evaluations=0, distinct_nontrivial=0, rule='', samples=[], mismatches=[], oracle_fail=[],
                    error=f'{type(e).__name__}: {e}')
         broken.append({'kind': 'harness', 'detail': res['error']})
+    uncovered = []
+    if trace_dir:
+        os.environ.pop('VERIF_TRACE', None)
+        try:
+            hits, reach = FP.collect(trace_dir)
+            if record_reach:
+                known = json.load(open(FP.FP_FILE)) if os.path.exists(FP.FP_FILE) else {}
+                rel = {os.path.relpath(f, os.path.realpath(C.REPO)): q for f, q in reach.items()}
+                out = {f: sorted(x for x in q if x in known.get(f, {})) for f, q in sorted(rel.items())}
+                out = {f: q for f, q in out.items() if q}
+                os.makedirs(FP.REACH_DIR, exist_ok=True)
+                rp = os.path.join(FP.REACH_DIR, pid + '.json')
+                if os.path.exists(rp) and os.environ.get('VERIF_REACH_MERGE') == '1':
+                    old = json.load(open(rp))
+                    for f, q in old.items():
+                        out[f] = sorted(set(out.get(f, [])) | set(q))
+                json.dump(out, open(rp, 'w'), indent=0, sort_keys=True)
+                print(f'reach recorded: {sum(len(q) for q in out.values())} functions in {len(out)} files')
+            else:
+                uncovered = FP.uncovered(fp['changed'], hits, C.REPO)
+                if uncovered:
+                    broken.append({'kind': 'coverage',
+                                   'detail': 'changed code of the modelled slice that no generated case executes: the '
+                                             'model/implementation comparison says nothing about it', 'uncovered': uncovered})
+        finally:
+            shutil.rmtree(trace_dir, ignore_errors=True)
     mism = res.pop('mismatches', [])
     ofail = res.pop('oracle_fail', [])
     known = {f['region']: f for f in C.known_findings(pid)}
@@ -141,7 +200,10 @@ def main():
         trusted_base=getattr(mod, 'TRUSTED', []) + [f'Print Assumptions {k}: {v}' for k, v in props['assumptions'].items()],
         theorems=props['theorems'],
         correspondence_mismatches=len(mism), oracle_failures=len(ofail),
-        known_findings_seen=sorted(seen_known), no_longer_checks=broken, make_s=round(dt_make, 1)))
+        known_findings_seen=sorted(seen_known), no_longer_checks=broken, make_s=round(dt_make, 1),
+        fingerprints=dict(recorded=fp.get('recorded', False),
+                          changed=[f"{c['file']}::{c['qualname']}" for c in fp['changed']], gone=fp['gone'],
+                          escalated=ctx.escalate, uncovered=uncovered)))
     C.write_evidence(pid, tier, seed, getattr(mod, 'LEVEL', 'proof'), cov,
                      getattr(mod, 'ASSUMPTIONS', []), time.time() - t0, violations)
     if rc == 0:
